@@ -61,12 +61,15 @@ def showVal (k : Kind) : Value Nat → String
 
 def cfg : LexCfg := StepModel.Generated.lexCfg
 
+/-- the float instance that follows `WriteReal` as the source has it (regenerated switch) -/
+def fops : FloatOps Nat := dblOpsOf StepModel.Generated.writeRealRoundTrips
+
 def showRead (k : Kind) (r : Outcome (ReadResult Nat)) : String :=
   match r with
   | .overflow => "R overflow"
   | .ok r =>
     s!"R sev={r.sev.name} val={showVal k r.val} pos={r.s.pos} eof={b2s r.s.eof} fail={b2s r.s.failed} " ++
-    s!"w={toHex (attrWrite dblOps k r.val)} s={toHex (attrAsStr dblOps cfg k r.val)}"
+    s!"w={toHex (attrWrite fops k r.val)} s={toHex (attrAsStr fops cfg k r.val)}"
 
 def showVerdict (k : Kind) : Grammar.Verdict Nat → String
   | .grammar v => "V G " ++ showVal k v
@@ -116,7 +119,7 @@ def aggLookup : Lookup := fun id =>
   if id == 1 || id == 5 || id == 12 || id == 123 || id == 2147483647 then some ["TGT"] else if id == 7 then some ["OTHER"] else none
 
 def aggEnv : Env Nat :=
-  { ops := dblOps, lex := cfg, cfg := StepModel.Generated.rwCfg, dict := ⟨[], [], []⟩, lookup := aggLookup }
+  { ops := fops, lex := cfg, cfg := StepModel.Generated.rwCfg, dict := ⟨[], [], []⟩, lookup := aggLookup }
 
 def parseElemTy : String → Option (ElemTy × Kind)
   | "INTEGER" => some (.integer, .integer) | "REAL" => some (.real, .real) | "NUMBER" => some (.number, .number)
@@ -157,16 +160,16 @@ def handle (line : String) : String :=
   | ["rd", kind, opt, _strict, tok, ctx] =>
     match parseKind kind, unhex tok, unhex ctx with
     | some k, some t, some c =>
-      let r := attrRead dblOps cfg lookup k (opt == "1") (IStream.ofBytes (t ++ c))
-      showRead k r ++ " | " ++ showVerdict k (Grammar.classify dblOps lookup k t)
+      let r := attrRead fops cfg lookup k (opt == "1") (IStream.ofBytes (t ++ c))
+      showRead k r ++ " | " ++ showVerdict k (Grammar.classify fops lookup k t)
     | _, _, _ => "bad-op"
   | ["sq", kind, opt, first, rest] =>
     match parseKind kind, unhex first, unhex rest with
     | some k, some f, some c =>
-      match attrRead dblOps cfg lookup .string false (IStream.ofBytes (f ++ [44] ++ c)) with
+      match attrRead fops cfg lookup .string false (IStream.ofBytes (f ++ [44] ++ c)) with
       | .ok r1 =>
         let s2 := r1.s.get.2
-        match attrRead dblOps cfg lookup k (opt == "1") s2 with
+        match attrRead fops cfg lookup k (opt == "1") s2 with
         | .ok r =>
           s!"R first={r1.sev.name} sev={r.sev.name} val={showVal k r.val} pos={r.s.pos} eof={b2s r.s.eof} fail={b2s r.s.failed}"
         | .overflow => "R overflow"
@@ -189,20 +192,28 @@ def handle (line : String) : String :=
         -- the harness stores the value and asks is_null(): sentinels are written as `$`
         let val : Value Nat := match val with
           | .int i => intValue (some i)
-          | .real x => realValue dblOps (some x)
+          | .real x => realValue fops (some x)
           | .str t => if t.isEmpty then .unset else .str t
           | .bin t => if t.isEmpty then .unset else .bin t
           | .enum i => enumValue k.enumKind (some i)
           | x => x
-        let w := attrWrite dblOps k val
-        s!"W w={toHex w} s={toHex (attrAsStr dblOps cfg k val)} | " ++
-          showRead k (attrRead dblOps cfg lookup k false (IStream.ofBytes (w ++ [44]))) ++
-          " | " ++ showVerdict k (Grammar.classify dblOps lookup k w)
+        let w := attrWrite fops k val
+        s!"W w={toHex w} s={toHex (attrAsStr fops cfg k val)} | " ++
+          showRead k (attrRead fops cfg lookup k false (IStream.ofBytes (w ++ [44]))) ++
+          " | " ++ showVerdict k (Grammar.classify fops lookup k w)
       | none => "bad-op"
     | none => "bad-op"
   | ["fl", "g15", bits] =>
     match parseHexNat bits with
-    | some b => "F " ++ toHex (dblOps.fmtG15 b)
+    | some b => "F " ++ toHex (Dbl.fmtG 15 b)
+    | none => "bad-op"
+  | ["fl", "g16", bits] =>
+    match parseHexNat bits with
+    | some b => "F " ++ toHex (Dbl.fmtG 16 b)
+    | none => "bad-op"
+  | ["fl", "g17", bits] =>
+    match parseHexNat bits with
+    | some b => "F " ++ toHex (Dbl.fmtG 17 b)
     | none => "bad-op"
   | ["fl", "parse", h] =>
     match unhex h with
